@@ -41,9 +41,13 @@ Definition foff (pr : proc) : Z := if is_func pr then 2 else 1.
 Lemma foff_range pr : 1 <= foff pr <= 2. Proof. unfold foff. destruct (is_func pr); lia. Qed.
 
 (* ---------------------------------------------------------------- frames of simple procedures *)
-Definition simple_proc (gaddr : string -> option Z) (pr : proc) (fn ln : list string) : Prop :=
-  formals pr = map FVal fn /\ locals pr = map DVar ln /\ NoDup (fn ++ ln) /\
-  (forall x, In x (fn ++ ln) -> gaddr x = None).
+(* value formals and array formals (passed by the address of the cells) with the names fn, var locals with the names
+   ln, all names distinct, none of them the name of a global variable or array *)
+Definition formals_ok (pr : proc) (fn : list string) : Prop :=
+  map formal_nm (formals pr) = fn /\ forall f, In f (formals pr) -> is_val_formal f = true \/ is_arr_formal f = true.
+Definition simple_proc (gaddr aaddr : string -> option Z) (pr : proc) (fn ln : list string) : Prop :=
+  formals_ok pr fn /\ locals pr = map DVar ln /\ NoDup (fn ++ ln) /\
+  (forall x, In x (fn ++ ln) -> gaddr x = None) /\ (forall x, In x (fn ++ ln) -> aaddr x = None).
 
 Lemma index_of_spec : forall l x i j, index_of x l i = Some j -> exists k, nth_error l k = Some x /\ j = i + Z.of_nat k.
 Proof.
@@ -59,22 +63,59 @@ Proof.
   intros [Hy|Hin]; [exact (E (eq_sym Hy)) | exact (IH x (i + 1) H Hin)].
 Qed.
 
-Lemma frame_venv_spec gaddr pr fn ln size x l :
-  simple_proc gaddr pr fn ln -> frame_venv gaddr pr size x = Some l ->
+(* the formal of a name: with distinct names, the one at the position index_of finds *)
+Lemma index_of_nth (fs : list formal) x : forall i j, index_of x (map formal_nm fs) i = Some j ->
+  exists k f, nth_error fs k = Some f /\ formal_nm f = x /\ j = i + Z.of_nat k.
+Proof.
+  induction fs as [|g r IH]; intros i j H; cbn [map index_of] in H; [discriminate|].
+  destruct (String.eqb x (formal_nm g)) eqn:E.
+  - apply String.eqb_eq in E. inversion H; subst j. exists 0%nat, g. split; [reflexivity|]. split; [symmetry; exact E | lia].
+  - destruct (IH (i + 1) j H) as (k & f & Hk & Hf & ->). exists (S k), f. split; [exact Hk|]. split; [exact Hf | lia].
+Qed.
+Lemma nodup_names_inj (fs : list formal) : NoDup (map formal_nm fs) ->
+  forall f f', In f fs -> In f' fs -> formal_nm f = formal_nm f' -> f = f'.
+Proof.
+  induction fs as [|g r IH]; intros Hnd f f' Hf Hf' He; [destruct Hf|]. cbn [map] in Hnd. inversion Hnd as [|? ? Hn Hnd']; subst.
+  destruct Hf as [<-|Hf]; destruct Hf' as [<-|Hf']; [reflexivity | | |exact (IH Hnd' f f' Hf Hf' He)].
+  - exfalso. apply Hn. rewrite He. apply in_map. exact Hf'.
+  - exfalso. apply Hn. rewrite <- He. apply in_map. exact Hf.
+Qed.
+Lemma nodup_app_left {A} (l1 l2 : list A) : NoDup (l1 ++ l2) -> NoDup l1.
+Proof.
+  induction l1 as [|y r IH]; intros H; [constructor|]. cbn [app] in H. inversion H as [|? ? Hn Hnd]; subst.
+  constructor; [intros Hin; apply Hn; apply in_or_app; left; exact Hin | exact (IH Hnd)].
+Qed.
+(* the formal named x, when the kind test of frame_venv / frame_aenv succeeds *)
+Lemma formal_of_kind (fs : list formal) (kind : formal -> bool) x i j :
+  NoDup (map formal_nm fs) -> index_of x (map formal_nm fs) i = Some j ->
+  existsb (fun f => String.eqb x (formal_nm f) && kind f) fs = true ->
+  exists k f, nth_error fs k = Some f /\ formal_nm f = x /\ kind f = true /\ j = i + Z.of_nat k.
+Proof.
+  intros Hnd Hi He. destruct (index_of_nth fs x i j Hi) as (k & f & Hk & Hf & ->).
+  apply existsb_exists in He. destruct He as (f' & Hin' & Hb). apply andb_prop in Hb. destruct Hb as [Hb1 Hb2]. apply String.eqb_eq in Hb1.
+  assert (f' = f) by (apply (nodup_names_inj fs Hnd); [exact Hin' | eapply nth_error_In; exact Hk | congruence]). subst f'.
+  exists k, f. repeat split; assumption.
+Qed.
+
+Lemma frame_venv_spec gaddr aaddr pr fn ln size x l :
+  simple_proc gaddr aaddr pr fn ln -> frame_venv gaddr pr size x = Some l ->
   (exists j, nth_error ln j = Some x /\ l = LFrame (size - 1 - Z.of_nat j)) \/
-  (exists i, nth_error fn i = Some x /\ l = LFrame (size + foff pr + Z.of_nat i)) \/
+  (exists i, nth_error fn i = Some x /\ nth_error (formals pr) i = Some (FVal x) /\ l = LFrame (size + foff pr + Z.of_nat i)) \/
   (~ In x (fn ++ ln) /\ exists a, gaddr x = Some a /\ l = LGlobal a).
 Proof.
-  intros (Hf & Hl & Hnd & Hng) H. unfold frame_venv in H. rewrite Hl, Hf in H.
+  intros ([Hf Hk] & Hl & Hnd & Hng & _) H. unfold frame_venv in H. rewrite Hl, Hf in H.
   assert (Ml : map local_decl_name (map DVar ln) = ln) by (rewrite map_map; cbn; apply map_id).
-  assert (Mf : map formal_nm (map FVal fn) = fn) by (rewrite map_map; cbn; apply map_id).
-  rewrite Ml, Mf in H.
+  rewrite Ml in H.
   destruct (index_of x ln 0) as [j|] eqn:El.
   - destruct (existsb _ _); [|discriminate]. inversion H; subst l.
-    destruct (index_of_spec _ _ _ _ El) as (k & Hk & ->). left. exists k. split; [exact Hk | f_equal; lia].
+    destruct (index_of_spec _ _ _ _ El) as (k & Hk0 & ->). left. exists k. split; [exact Hk0 | f_equal; lia].
   - destruct (index_of x fn 0) as [i|] eqn:Ef.
-    + destruct (existsb _ _); [|discriminate]. inversion H; subst l.
-      destruct (index_of_spec _ _ _ _ Ef) as (k & Hk & ->). right. left. exists k. split; [exact Hk | f_equal; unfold foff; destruct (is_func pr); lia].
+    + destruct (existsb (fun f => String.eqb x (formal_nm f) && is_val_formal f) (formals pr)) eqn:Ex; [|discriminate]. inversion H; subst l.
+      rewrite <- Hf in Ef. assert (Hndf : NoDup (map formal_nm (formals pr))) by (rewrite Hf; exact (nodup_app_left _ _ Hnd)).
+      destruct (formal_of_kind _ is_val_formal x 0 i Hndf Ef Ex) as (k & f & Hk0 & Hn & Hv & ->).
+      right. left. exists k. destruct f; try discriminate Hv. cbn [formal_nm] in Hn. subst x0.
+      split; [rewrite <- Hf; rewrite nth_error_map, Hk0; reflexivity|]. split; [exact Hk0|].
+      first [reflexivity | (f_equal; unfold foff; destruct (is_func pr); lia)].
     + destruct (gaddr x) as [a|] eqn:Eg; [|discriminate]. inversion H; subst l.
       right. right. split; [|exists a; split; reflexivity].
       intros Hin. apply in_app_or in Hin. destruct Hin as [Hin|Hin];
@@ -82,18 +123,37 @@ Proof.
 Qed.
 
 (* the frame XSem builds on entry *)
-Lemma bind_formals_simple : forall fn vs fv, bind_formals (map FVal fn) vs = inr fv ->
-  List.length vs = List.length fn /\ map fst fv = fn /\
-  forall i x, nth_error fn i = Some x -> exists z, nth_error vs i = Some (Vint z) /\ nth_error fv i = Some (x, Vint z).
+Lemma bind_formals_ok : forall fs vs fv,
+  (forall f, In f fs -> is_val_formal f = true \/ is_arr_formal f = true) -> bind_formals fs vs = inr fv ->
+  List.length vs = List.length fs /\ map fst fv = map formal_nm fs /\
+  forall i f, nth_error fs i = Some f -> exists v, nth_error vs i = Some v /\ nth_error fv i = Some (formal_nm f, v) /\
+    (is_val_formal f = true -> exists z, v = Vint z) /\
+    (is_arr_formal f = true -> (exists g, v = Varr g) \/ (exists ws, v = Vstr ws)).
 Proof.
-  induction fn as [|x r IH]; intros vs fv H; cbn [map bind_formals] in H.
+  induction fs as [|f0 r IH]; intros vs fv Hk H; cbn [bind_formals] in H.
   - destruct vs; [|discriminate]. inversion H; subst fv. split; [reflexivity|]. split; [reflexivity|]. intros i y Hi. destruct i; discriminate.
-  - destruct vs as [|v vr]; [discriminate|]. destruct v as [|z|?|?]; try discriminate.
-    destruct (bind_formals (map FVal r) vr) as [u|l] eqn:E; [discriminate|]. inversion H; subst fv.
-    destruct (IH vr l E) as (Hlen & Hmap & Hn). split; [cbn [List.length]; congruence|]. split; [cbn [map fst]; congruence|].
-    intros i y Hi. destruct i as [|i]; cbn [nth_error] in *.
-    + inversion Hi; subst y. exists z. split; reflexivity.
-    + exact (Hn i y Hi).
+  - assert (Hkr : forall f, In f r -> is_val_formal f = true \/ is_arr_formal f = true) by (intros f Hin; apply Hk; right; exact Hin).
+    destruct f0 as [x|x|x|x]; try (destruct vs; discriminate H).
+    + destruct vs as [|v vr]; [discriminate|]. destruct v as [|z|?|?]; try discriminate.
+      destruct (bind_formals r vr) as [u|l] eqn:E; [discriminate|]. inversion H; subst fv.
+      destruct (IH vr l Hkr E) as (Hlen & Hmap & Hn). split; [cbn [List.length]; congruence|]. split; [cbn [map fst formal_nm]; congruence|].
+      intros i f Hi. destruct i as [|i]; cbn [nth_error] in *.
+      * inversion Hi; subst f. exists (Vint z). cbn [formal_nm is_val_formal is_arr_formal]. split; [reflexivity|]. split; [reflexivity|].
+        split; [intros _; exists z; reflexivity | intros Hd; discriminate Hd].
+      * exact (Hn i f Hi).
+    + destruct vs as [|v vr]; [discriminate|]. destruct v as [|z|g|ws]; try discriminate.
+      * destruct (bind_formals r vr) as [u|l] eqn:E; [discriminate|]. inversion H; subst fv.
+        destruct (IH vr l Hkr E) as (Hlen & Hmap & Hn). split; [cbn [List.length]; congruence|]. split; [cbn [map fst formal_nm]; congruence|].
+        intros i f Hi. destruct i as [|i]; cbn [nth_error] in *.
+        -- inversion Hi; subst f. exists (Varr g). cbn [formal_nm is_val_formal is_arr_formal]. split; [reflexivity|]. split; [reflexivity|].
+           split; [intros Hd; discriminate Hd | intros _; left; exists g; reflexivity].
+        -- exact (Hn i f Hi).
+      * destruct (bind_formals r vr) as [u|l] eqn:E; [discriminate|]. inversion H; subst fv.
+        destruct (IH vr l Hkr E) as (Hlen & Hmap & Hn). split; [cbn [List.length]; congruence|]. split; [cbn [map fst formal_nm]; congruence|].
+        intros i f Hi. destruct i as [|i]; cbn [nth_error] in *.
+        -- inversion Hi; subst f. exists (Vstr ws). cbn [formal_nm is_val_formal is_arr_formal]. split; [reflexivity|]. split; [reflexivity|].
+           split; [intros Hd; discriminate Hd | intros _; right; exists ws; reflexivity].
+        -- exact (Hn i f Hi).
 Qed.
 
 Lemma local_decls_simple : forall ln names gv vars vals r,
@@ -135,18 +195,20 @@ Proof.
     apply IH; [exact Hin|]. intros p Hp. apply Hall. right. exact Hp.
 Qed.
 
-Lemma enter_frame ge gaddr pr fn ln vs st fr :
-  simple_proc gaddr pr fn ln -> enter ge pr vs st = inr fr ->
+Lemma enter_frame ge gaddr aaddr pr fn ln vs st fr :
+  simple_proc gaddr aaddr pr fn ln -> enter ge pr vs st = inr fr ->
   (f_depth (top st) < g_maxdepth ge)%nat /\ f_depth fr = S (f_depth (top st)) /\ f_vals fr = [] /\
   List.length vs = List.length fn /\
   (forall x, In x ln -> assoc x (f_vars fr) = Some Vundef) /\
-  (forall i x, nth_error fn i = Some x -> exists z, nth_error vs i = Some (Vint z) /\ assoc x (f_vars fr) = Some (Vint z)) /\
+  (forall i f, nth_error (formals pr) i = Some f -> exists v, nth_error vs i = Some v /\ assoc (formal_nm f) (f_vars fr) = Some v /\
+     (is_val_formal f = true -> exists z, v = Vint z) /\
+     (is_arr_formal f = true -> (exists g, v = Varr g) \/ (exists ws, v = Vstr ws))) /\
   (forall x, ~ In x (fn ++ ln) -> assoc x (f_vars fr) = None).
 Proof.
-  intros (Hf & Hl & Hnd & Hng) He. unfold enter in He.
+  intros ([Hf Hk] & Hl & Hnd & Hng & _) He. unfold enter in He.
   destruct (Nat.leb (g_maxdepth ge) (f_depth (top st))) eqn:Ed; [discriminate|]. apply Nat.leb_gt in Ed.
-  rewrite Hf in He. destruct (bind_formals (map FVal fn) vs) as [u|fv] eqn:Eb; [discriminate|].
-  destruct (bind_formals_simple fn vs fv Eb) as (Hlen & Hmap & Hn).
+  destruct (bind_formals (formals pr) vs) as [u|fv] eqn:Eb; [discriminate|].
+  destruct (bind_formals_ok (formals pr) vs fv Hk Eb) as (Hlen & Hmap & Hn). rewrite Hf in Hmap.
   rewrite Hl in He.
   destruct (local_decls (map DVar ln) _ (g_vals ge) fv []) as [u|[vars vals]] eqn:El; [discriminate|].
   apply local_decls_simple in El. inversion El; subst vars vals. inversion He; subst fr. cbn [f_depth f_vals f_vars].
@@ -158,31 +220,73 @@ Proof.
     cbn [app] in Hnd. inversion Hnd as [|? ? Hn Hnd']; subst. destruct Hxf as [<-|Hxf].
     - apply Hn. apply in_or_app. right. exact Hxl.
     - exact (IH Hnd' Hxf). }
-  repeat split; try assumption; try reflexivity.
+  split; [exact Ed|]. split; [reflexivity|]. split; [reflexivity|].
+  split; [rewrite Hlen, <- Hf, map_length; reflexivity|]. split; [|split].
   - intros x Hx. apply assoc_app_some. apply assoc_const.
     + rewrite Hlv. apply in_rev. rewrite rev_involutive. exact Hx.
     + intros p Hp. unfold lv in Hp. apply in_rev in Hp. apply in_map_iff in Hp. destruct Hp as (y & <- & _). reflexivity.
-  - intros i x Hi. destruct (Hn i x Hi) as (z & Hv & Hfv). exists z. split; [exact Hv|].
+  - intros i f Hi. destruct (Hn i f Hi) as (v & Hv & Hfv & Hkv & Hka). exists v. split; [exact Hv|]. split; [|exact (conj Hkv Hka)].
+    assert (Hin : In (formal_nm f) fn) by (rewrite <- Hf; apply in_map; eapply nth_error_In; exact Hi).
     rewrite assoc_app_none.
-    + apply (assoc_nodup fv) with (i := i); [|exact Hfv]. rewrite Hmap.
-      clear - Hnd. induction fn as [|y r IH]; [constructor|]. cbn [app] in Hnd. inversion Hnd as [|? ? Hn Hnd']; subst.
-      constructor; [intros Hin; apply Hn; apply in_or_app; left; exact Hin | exact (IH Hnd')].
-    + apply assoc_not_in. rewrite Hlv. intros Hin. apply in_rev in Hin. exact (Hdisj x (nth_error_In _ _ Hi) Hin).
+    + apply (assoc_nodup fv) with (i := i); [|exact Hfv]. rewrite Hmap. exact (nodup_app_left _ _ Hnd).
+    + apply assoc_not_in. rewrite Hlv. intros Hin2. apply in_rev in Hin2. exact (Hdisj _ Hin Hin2).
   - intros x Hx. rewrite assoc_app_none.
     + apply assoc_not_in. rewrite Hmap. intros Hin. apply Hx. apply in_or_app. left. exact Hin.
     + apply assoc_not_in. rewrite Hlv. intros Hin. apply in_rev in Hin. apply Hx. apply in_or_app. right. exact Hin.
+Qed.
+
+(* the arrays a simple frame sees: its array formals, and the global arrays under their own names *)
+Lemma frame_aenv_spec gaddr aaddr pr fn ln size x l :
+  simple_proc gaddr aaddr pr fn ln -> frame_aenv aaddr pr size x = Some l ->
+  (exists i, nth_error fn i = Some x /\ nth_error (formals pr) i = Some (FArray x) /\ l = LFrame (size + foff pr + Z.of_nat i)) \/
+  (~ In x (fn ++ ln) /\ exists w, aaddr x = Some w /\ l = LGlobal w).
+Proof.
+  intros ([Hf Hk] & Hl & Hnd & _ & _) H. unfold frame_aenv in H. rewrite Hl, Hf in H.
+  assert (Ml : map local_decl_name (map DVar ln) = ln) by (rewrite map_map; cbn; apply map_id).
+  rewrite Ml in H.
+  destruct (index_of x ln 0) eqn:El; [discriminate|].
+  destruct (index_of x fn 0) as [i|] eqn:Ef.
+  - destruct (existsb (fun f => String.eqb x (formal_nm f) && is_arr_formal f) (formals pr)) eqn:Ex; [|discriminate]. inversion H; subst l.
+    rewrite <- Hf in Ef. assert (Hndf : NoDup (map formal_nm (formals pr))) by (rewrite Hf; exact (nodup_app_left _ _ Hnd)).
+    destruct (formal_of_kind _ is_arr_formal x 0 i Hndf Ef Ex) as (k & f & Hk0 & Hn & Hv & ->).
+    left. exists k. destruct f; try discriminate Hv. cbn [formal_nm] in Hn. subst x0.
+    split; [rewrite <- Hf; rewrite nth_error_map, Hk0; reflexivity|]. split; [exact Hk0|].
+    first [reflexivity | (f_equal; unfold foff; destruct (is_func pr); lia)].
+  - destruct (aaddr x) as [w|]; [|discriminate]. inversion H; subst l. right. split; [|exists w; split; reflexivity].
+    intros Hin. apply in_app_or in Hin. destruct Hin as [Hin|Hin]; [exact (index_of_none _ _ _ Ef Hin) | exact (index_of_none _ _ _ El Hin)].
+Qed.
+Lemma index_of_notin0 : forall l x i, ~ In x l -> index_of x l i = None.
+Proof.
+  induction l as [|y r IH]; intros x i Hn; cbn [index_of]; [reflexivity|].
+  destruct (String.eqb x y) eqn:E.
+  - apply String.eqb_eq in E. subst y. exfalso. apply Hn. left. reflexivity.
+  - apply IH. intros Hin. apply Hn. right. exact Hin.
+Qed.
+Lemma array_in_frame gaddr aaddr pr fn ln size x w :
+  simple_proc gaddr aaddr pr fn ln -> aaddr x = Some w -> frame_aenv aaddr pr size x = Some (LGlobal w).
+Proof.
+  intros ([Hf _] & Hl & _ & _ & Hna) Hx.
+  assert (Hn : ~ In x (fn ++ ln)) by (intros Hin; rewrite (Hna x Hin) in Hx; discriminate).
+  unfold frame_aenv. rewrite Hl, Hf.
+  assert (Ml : map local_decl_name (map DVar ln) = ln) by (rewrite map_map; cbn; apply map_id).
+  rewrite Ml.
+  rewrite (index_of_notin0 ln x 0) by (intros Hin; apply Hn; apply in_or_app; right; exact Hin).
+  rewrite (index_of_notin0 fn x 0) by (intros Hin; apply Hn; apply in_or_app; left; exact Hin).
+  rewrite Hx. reflexivity.
 Qed.
 
 (* ---------------------------------------------------------------- the program *)
 Section Prog.
   Variable ge : genv.
   Variable gaddr : string -> option Z.
+  Variable aaddr : string -> option Z.          (* the word that holds the address of a global array's cells *)
+  Variables abase alen_of : string -> Z.        (* that address, and the number of cells *)
   Variable pool : Z -> option Z.
   Variable P : Z -> Prop.
   Variable m0 : WMap.t.
   Variable lab : label -> Z.
   Variable pinfo : string -> option pframe.
-  Variables stack_lo maxframe : Z.
+  Variables stack_lo stack_hi maxframe : Z.     (* the stack lives in [stack_lo, stack_hi); the arrays above it *)
 
   Notation Cm := (C P m0).
 
@@ -191,14 +295,14 @@ Section Prog.
 
   (* a frame of the simple procedure pr at stack pointer sp *)
   Definition frame_ok (pr : proc) (fn ln : list string) (L : playout) (sp : Z) : Prop :=
-    simple_proc gaddr pr fn ln /\ numbers_ok pr L /\ stack_lo <= sp /\
-    sp + pl_size L + foff pr + Z.of_nat (List.length fn) <= MEMW /\ sp + 2 < MEMW.
+    simple_proc gaddr aaddr pr fn ln /\ numbers_ok pr L /\ stack_lo <= sp /\
+    sp + pl_size L + foff pr + Z.of_nat (List.length fn) <= stack_hi /\ sp + 2 < MEMW.
 
   Hypothesis Hprocs : forall p pi, pinfo p = Some pi ->
     0 <= lab (pf_entry pi) /\
     exists pr fn ln L bc n' endp,
-      find_proc p (g_procs ge) = Some pr /\ pf_isfunc pi = is_func pr /\ simple_proc gaddr pr fn ln /\ numbers_ok pr L /\
-      cs pinfo (frame_venv gaddr pr (pl_size L)) pool (pl_size L) (pl_nslots L) (first_temp pr) (pl_og L) (pl_exit L)
+      find_proc p (g_procs ge) = Some pr /\ pf_isfunc pi = is_func pr /\ simple_proc gaddr aaddr pr fn ln /\ numbers_ok pr L /\
+      cs pinfo (frame_venv gaddr pr (pl_size L)) pool (pl_size L) (pl_nslots L) (frame_aenv aaddr pr (pl_size L)) (first_temp pr) (pl_og L) (pl_exit L)
          (body pr) (pl_n0 L) = Some (bc, n') /\
       code_at Cm lab (lab (pf_entry pi)) (pro (pl_size L) ++ bc ++ epi_of (is_func pr) (pl_exit L) (pl_size L)) endp /\ endp < W.
   Hypothesis Hgaddr : forall x a, gaddr x = Some a ->
@@ -209,7 +313,15 @@ Section Prog.
   Hypothesis Hpool : forall v a, pool v = Some a -> P a /\ in_mem a = true /\ rd m0 a = v mod W.
   Hypothesis Hcallt : forall p pi, pinfo p = Some pi -> assoc p (g_vals ge) = None.
   Hypothesis Hmaxframe : 0 <= maxframe.
+  (* the arrays: the word of the name lies with the globals, the cells above the stack *)
+  Hypothesis Hhi : stack_hi <= MEMW.
+  Hypothesis Harr : forall a w, aaddr a = Some w ->
+    in_mem w = true /\ ~ P w /\ w <> 1 /\ w < stack_lo /\ (forall x g, gaddr x = Some g -> g <> w) /\
+    forall i, 0 <= i < alen_of a -> stack_hi <= abase a + i < MEMW /\ ~ P (abase a + i).
+  Hypothesis Hainj : forall a w a' w' i i', aaddr a = Some w -> aaddr a' = Some w' -> 0 <= i < alen_of a -> 0 <= i' < alen_of a' ->
+    abase a + i = abase a' + i' -> a = a' /\ i = i'.
 
+  Definition garr_of (g : string) : bool := match aaddr g with Some _ => true | None => false end.
   Definition Fr_of (sp : Z) (a : Z) : Prop := stack_lo <= a < sp.
   Definition Dq_of (sp : Z) (d : nat) : Prop := stack_lo + Z.of_nat (g_maxdepth ge - d) * maxframe <= sp.
 
@@ -220,7 +332,7 @@ Section Prog.
     - intros H. apply andb_true_intro. split; [apply Z.leb_le | apply Z.ltb_lt]; lia.
   Qed.
 
-  Lemma first_temp_len pr fn ln : simple_proc gaddr pr fn ln -> first_temp pr = Z.of_nat (List.length ln).
+  Lemma first_temp_len pr fn ln : simple_proc gaddr aaddr pr fn ln -> first_temp pr = Z.of_nat (List.length ln).
   Proof. intros (_ & Hl & _). unfold first_temp. rewrite Hl, map_length. reflexivity. Qed.
 
   (* where the variables of a simple frame live *)
@@ -230,7 +342,7 @@ Section Prog.
     (exists i, nth_error fn i = Some x /\ addr_of sp l = sp + pl_size L + foff pr + Z.of_nat i /\ (i < List.length fn)%nat) \/
     (~ In x (fn ++ ln) /\ exists a, gaddr x = Some a /\ l = LGlobal a /\ addr_of sp l = a).
   Proof.
-    intros (Hs & _) Hv. destruct (frame_venv_spec gaddr pr fn ln _ x l Hs Hv) as [(j & Hj & ->)|[(i & Hi & ->)|(Hn & a & Ha & ->)]].
+    intros (Hs & _) Hv. destruct (frame_venv_spec gaddr aaddr pr fn ln _ x l Hs Hv) as [(j & Hj & ->)|[(i & Hi & _ & ->)|(Hn & a & Ha & ->)]].
     - left. exists j. split; [exact Hj|]. split; [cbn [addr_of]; lia | apply nth_error_Some; congruence].
     - right. left. exists i. split; [exact Hi|]. split; [cbn [addr_of]; lia | apply nth_error_Some; congruence].
     - right. right. split; [exact Hn|]. exists a. repeat split. exact Ha.
@@ -238,12 +350,12 @@ Section Prog.
 
   Definition Stmt_ok (f : nat) : Prop :=
     forall pr fn ln L sp, frame_ok pr fn ln L sp ->
-      stmt_ok pinfo (Fr_of sp) (Dq_of sp) (frame_venv gaddr pr (pl_size L)) pool (pl_size L) (pl_nslots L) (first_temp pr)
-              (pl_og L) (pl_exit L) ge P m0 lab sp f.
+      stmt_ok pinfo (Fr_of sp) (Dq_of sp) (frame_venv gaddr pr (pl_size L)) (frame_aenv aaddr pr (pl_size L)) garr_of abase alen_of pool
+              (pl_size L) (pl_nslots L) (first_temp pr) (pl_og L) (pl_exit L) ge P m0 lab sp f.
   Definition Call_ok (f : nat) : Prop :=
     forall pr fn ln L sp, frame_ok pr fn ln L sp ->
-      call_spec pinfo (Fr_of sp) (Dq_of sp) (frame_venv gaddr pr (pl_size L)) (pl_size L) (pl_nslots L) (first_temp pr)
-                (pl_og L) ge P m0 lab sp f.
+      call_spec pinfo (Fr_of sp) (Dq_of sp) (frame_venv gaddr pr (pl_size L)) (frame_aenv aaddr pr (pl_size L)) garr_of abase alen_of
+                (pl_size L) (pl_nslots L) (first_temp pr) (pl_og L) ge P m0 lab sp f.
 
   Lemma stmt_from_calls f : (forall f', (f' < f)%nat -> Call_ok f') -> Stmt_ok f.
   Proof.
@@ -281,6 +393,36 @@ Section Prog.
       + intros Heq. assert (j = j') by lia. subst j'. rewrite Hj in Hj'. inversion Hj'. contradiction.
       + intros Heq. assert (i = i') by lia. subst i'. rewrite Hi in Hi'. inversion Hi'. contradiction.
       + exact (Hginj x y a a' Ha Ha' Hne).
+    - (* the words of the array names: a frame word above the frame (an array formal) or a data word (a global array) *)
+      intros a l Hal.
+      assert (Hcl : forall c, cell_of garr_of abase alen_of c -> stack_hi <= c).
+      { intros c (g & i & Hg & Hi & ->). unfold garr_of in Hg. destruct (aaddr g) as [w|] eqn:Ew; [|discriminate].
+        destruct (Harr g w Ew) as (_ & _ & _ & _ & _ & B6). destruct (B6 i Hi) as [B7 _]. lia. }
+      destruct (frame_aenv_spec gaddr aaddr pr fn ln _ a l Hs Hal) as [(i & Hi & Hfa & ->)|(_ & w & Hw & ->)]; cbn [waddr].
+      + assert (Hil : (i < List.length fn)%nat) by (apply nth_error_Some; congruence).
+        split; [apply in_mem_iff; lia|]. split; [unfold scratch, T, O, Fr_of, tlo, fb; lia|]. split; [apply HsP; lia|]. split; [lia|]. split.
+        * intros Hcc. apply Hcl in Hcc. lia.
+        * intros x lx Hx.
+          destruct (frame_venv_spec gaddr aaddr pr fn ln _ x lx Hs Hx) as [(j & Hj & ->)|[(i' & Hi' & Hfv & ->)|(Hn & g & Hg & ->)]]; cbn [addr_of].
+          -- assert (Hjl : (j < List.length ln)%nat) by (apply nth_error_Some; congruence). lia.
+          -- intros Heq. assert (i' = i) by lia. subst i'. rewrite Hfa in Hfv. discriminate Hfv.
+          -- destruct (Hgaddr x g Hg) as (_ & _ & _ & G4 & _). lia.
+      + destruct (Harr a w Hw) as (A1 & A2 & A3 & A4 & A5 & A6).
+        split; [exact A1|]. split; [unfold scratch, T, O, Fr_of, tlo, fb; lia|]. split; [exact A2|]. split; [exact A3|]. split.
+        * intros Hcc. apply Hcl in Hcc. lia.
+        * intros x lx Hx.
+          destruct (var_addr pr fn ln L sp x lx Hfr Hx) as [(j & Hj & -> & Hjl)|[(i & Hi & -> & Hil)|(Hn & g & Hg & -> & _)]]; cbn [addr_of]; try lia; try exact (A5 x g Hg).
+    - (* the cells *)
+      intros c (g & i & Hg & Hi & ->). unfold garr_of in Hg. destruct (aaddr g) as [w|] eqn:Hw; [|discriminate].
+      destruct (Harr g w Hw) as (_ & _ & _ & _ & _ & A6). destruct (A6 i Hi) as [A7 A8].
+      split; [apply in_mem_iff; lia|]. split; [unfold scratch, T, O, Fr_of, tlo, fb; lia|]. split; [exact A8|]. split; [lia|].
+      intros x lx Hx.
+      destruct (var_addr pr fn ln L sp x lx Hfr Hx) as [(j & Hj & -> & Hjl)|[(i0 & Hi0 & -> & Hil)|(Hn & g0 & Hg0 & -> & _)]]; cbn [addr_of]; try lia;
+        try (destruct (Hgaddr x g0 Hg0) as (_ & _ & _ & G4 & _); lia).
+    - (* different cells *)
+      intros g g' i i' Hg Hg' Hi Hi' Heq. unfold garr_of in Hg, Hg'.
+      destruct (aaddr g) as [w|] eqn:Hw; [|discriminate]. destruct (aaddr g') as [w'|] eqn:Hw'; [|discriminate].
+      exact (Hainj g w g' w' i i' Hw Hw' Hi Hi' Heq).
     - intros p pi Hp. destruct (Hprocs p pi Hp) as (H0 & pr' & fn' & ln' & L' & bc & n' & endp & _ & _ & _ & _ & _ & Hca & He).
       split; [exact H0|]. apply code_at_le in Hca. lia.
     - exact Hcallt.
@@ -502,11 +644,11 @@ Section Prog.
 
   (* ---- frames of caller and callee *)
 
-  Notation RelF pr L sp := (Rel pinfo (Dq_of sp) (frame_venv gaddr pr (pl_size L)) ge P m0 sp).
+  Notation RelF pr L sp := (Rel pinfo (Dq_of sp) (frame_venv gaddr pr (pl_size L)) (frame_aenv aaddr pr (pl_size L)) garr_of abase alen_of ge P m0 sp).
   Notation scratchF pr L sp := (scratch (Fr_of sp) (pl_size L) (pl_nslots L) (first_temp pr) (pl_og L) sp).
-  Notation var_wordF pr L sp := (var_word (frame_venv gaddr pr (pl_size L)) sp).
+  Notation var_wordF pr L sp := (var_word (frame_venv gaddr pr (pl_size L)) garr_of abase alen_of sp).
   Notation frame_onlyF pr L sp :=
-    (frame_only (Fr_of sp) (frame_venv gaddr pr (pl_size L)) (pl_size L) (pl_nslots L) (first_temp pr) (pl_og L) sp).
+    (frame_only (Fr_of sp) (frame_venv gaddr pr (pl_size L)) garr_of abase alen_of (pl_size L) (pl_nslots L) (first_temp pr) (pl_og L) sp).
 
   Lemma index_of_notin : forall l x i, ~ In x l -> index_of x l i = None.
   Proof.
@@ -518,14 +660,13 @@ Section Prog.
 
   (* a global variable is in scope in every simple frame: nothing hides it *)
   Lemma global_in_frame pr fn ln size x a :
-    simple_proc gaddr pr fn ln -> gaddr x = Some a -> frame_venv gaddr pr size x = Some (LGlobal a).
+    simple_proc gaddr aaddr pr fn ln -> gaddr x = Some a -> frame_venv gaddr pr size x = Some (LGlobal a).
   Proof.
-    intros (Hf & Hl & _ & Hng) Hx.
+    intros ([Hf _] & Hl & _ & Hng & _) Hx.
     assert (Hn : ~ In x (fn ++ ln)) by (intros Hin; rewrite (Hng x Hin) in Hx; discriminate).
     unfold frame_venv. rewrite Hl, Hf.
     assert (Ml : map local_decl_name (map DVar ln) = ln) by (rewrite map_map; cbn; apply map_id).
-    assert (Mf : map formal_nm (map FVal fn) = fn) by (rewrite map_map; cbn; apply map_id).
-    rewrite Ml, Mf.
+    rewrite Ml.
     rewrite (index_of_notin ln x 0) by (intros Hin; apply Hn; apply in_or_app; right; exact Hin).
     rewrite (index_of_notin fn x 0) by (intros Hin; apply Hn; apply in_or_app; left; exact Hin).
     rewrite Hx. reflexivity.
@@ -542,20 +683,23 @@ Section Prog.
     frame_ok pr' fn' ln' L' sp' -> var_wordF pr' L' sp' a ->
     stack_lo <= a < sp' + pl_size L' \/
     sp' + pl_size L' + foff pr' <= a < sp' + pl_size L' + foff pr' + Z.of_nat (List.length fn') \/
-    exists x, gaddr x = Some a.
+    (exists x, gaddr x = Some a) \/
+    (exists a' w i, aaddr a' = Some w /\ 0 <= i < alen_of a' /\ a = abase a' + i).
   Proof.
-    intros Hfr (x & l & Hx & ->). pose proof Hfr as (Hs & (Hsz & Hft & Hog & Hns) & Hlo & _).
-    pose proof (first_temp_len pr' fn' ln' Hs) as Hft'.
-    destruct (var_addr pr' fn' ln' L' sp' x l Hfr Hx) as [(j & Hj & -> & Hjl)|[(i & Hi & -> & Hil)|(Hn & a & Ha & -> & _)]].
-    - left. lia.
-    - right. left. lia.
-    - right. right. exists x. exact Ha.
+    intros Hfr [(x & l & Hx & ->)|(a' & i & Hg & Hi & ->)]; pose proof Hfr as (Hs & (Hsz & Hft & Hog & Hns) & Hlo & _).
+    - pose proof (first_temp_len pr' fn' ln' Hs) as Hft'.
+      destruct (var_addr pr' fn' ln' L' sp' x l Hfr Hx) as [(j & Hj & -> & Hjl)|[(i & Hi & -> & Hil)|(Hn & a & Ha & -> & _)]].
+      + left. lia.
+      + right. left. lia.
+      + right. right. left. exists x. exact Ha.
+    - unfold garr_of in Hg. destruct (aaddr a') as [w|] eqn:Hw; [|discriminate].
+      right. right. right. exists a', w, i. split; [exact Hw|]. split; [exact Hi | reflexivity].
   Qed.
 
   Lemma callee_frame pr fn ln L sp pr' fn' ln' L' st m vs fr link m2 :
     (forall x, 0 <= x -> rd m2 x = rd (wr (wr m sp link) 1 (sp - pl_size L')) x) ->
-    frame_ok pr fn ln L sp -> simple_proc gaddr pr' fn' ln' -> numbers_ok pr' L' ->
-    RelF pr L sp st m -> args_stored sp vs (foff pr') m -> Z.of_nat (List.length vs) + foff pr' <= pl_og L ->
+    frame_ok pr fn ln L sp -> simple_proc gaddr aaddr pr' fn' ln' -> numbers_ok pr' L' ->
+    RelF pr L sp st m -> args_stored garr_of abase sp vs (foff pr') m -> Z.of_nat (List.length vs) + foff pr' <= pl_og L ->
     enter ge pr' vs st = inr fr ->
     frame_ok pr' fn' ln' L' (sp - pl_size L') /\
     RelF pr' L' (sp - pl_size L') (set_stk (set_budget st (budget st - 1)) (fr :: stk st)) m2.
@@ -565,8 +709,8 @@ Section Prog.
     pose proof Hnum' as (Hsz' & Hft1 & Hog' & Hns').
     pose proof (foff_range pr) as Hfo. pose proof (foff_range pr') as Hfo'.
     destruct Hstack as [Hs1 HsP].
-    destruct HR as (HC & H1 & (HVg & HVf) & Hne & HD).
-    destruct (enter_frame ge gaddr pr' fn' ln' vs st fr Hs' Hent) as (Hd & Hfd & Hfv & Hlv & Hloc & Hfor & Hoth).
+    destruct HR as (HC & H1 & ((HVg & HVf) & (HAn & HAc)) & Hne & HD).
+    destruct (enter_frame ge gaddr aaddr pr' fn' ln' vs st fr Hs' Hent) as (Hd & Hfd & Hfv & Hlv & Hloc & Hfor & Hoth).
     assert (Hsp' : stack_lo <= sp - pl_size L').
     { unfold Dq_of in HD. assert (1 <= Z.of_nat (g_maxdepth ge - f_depth (top st))) by lia. nia. }
     assert (Hfr' : frame_ok pr' fn' ln' L' (sp - pl_size L')).
@@ -579,23 +723,49 @@ Section Prog.
     - intros a Ha HPa. rewrite Hext by exact Ha. revert a Ha HPa.
       apply Cm_wr; [|lia | exact HP1]. apply Cm_wr; [exact HC | lia | apply HsP; lia].
     - rewrite Hext by lia. apply rd_wr_same.
-    - split.
+    - split; [split | split].
       + intros x a Hx.
-        destruct (frame_venv_spec gaddr pr' fn' ln' _ x _ Hs' Hx) as [(j & _ & Hq)|[(i & _ & Hq)|(Hn & a0 & Ha0 & Hq)]]; try discriminate Hq.
+        destruct (frame_venv_spec gaddr aaddr pr' fn' ln' _ x _ Hs' Hx) as [(j & _ & Hq)|[(i & _ & _ & Hq)|(Hn & a0 & Ha0 & Hq)]]; try discriminate Hq.
         inversion Hq; subst a0. cbn [top set_stk stk f_vars f_vals].
         destruct (Hgaddr x a Ha0) as (G1 & G2 & G3 & G4 & G5).
         split; [exact (Hoth x Hn)|]. split; [rewrite Hfv; reflexivity|]. split; [exact G5|].
         destruct (HVg x a (global_in_frame pr fn ln (pl_size L) x a Hs Ha0)) as (_ & _ & _ & v & Hv & Hval).
         exists v. split; [exact Hv|]. rewrite Hm2; [exact Hval | apply in_mem_iff in G1; lia | lia | exact G3].
       + intros x k Hx. cbn [top set_stk stk].
-        destruct (frame_venv_spec gaddr pr' fn' ln' _ x _ Hs' Hx) as [(j & Hj & Hq)|[(i & Hi & Hq)|(Hn & a0 & Ha0 & Hq)]]; try discriminate Hq.
+        destruct (frame_venv_spec gaddr aaddr pr' fn' ln' _ x _ Hs' Hx) as [(j & Hj & Hq)|[(i & Hi & Hfx & Hq)|(Hn & a0 & Ha0 & Hq)]]; try discriminate Hq.
         * exists Vundef. split; [apply Hloc; eapply nth_error_In; exact Hj | left; reflexivity].
-        * inversion Hq; subst k. destruct (Hfor i x Hi) as (z & Hz & Hass).
-          destruct (Hargs i (Vint z) Hz) as (z' & Hz' & Hin & Hrd). inversion Hz'; subst z'.
+        * inversion Hq; subst k. destruct (Hfor i (FVal x) Hfx) as (v & Hv & Hass & Hkv & _). cbn [formal_nm] in Hass.
+          destruct (Hkv eq_refl) as (z & ->).
+          destruct (Hargs i (Vint z) Hv) as [(z' & Hz' & Hin & Hrd)|(g & Hq' & _)]; [|discriminate Hq']. inversion Hz'; subst z'.
           exists (Vint z). split; [exact Hass|]. right. exists z. split; [reflexivity|]. split; [exact Hin|].
           assert (Hil : (i < List.length vs)%nat) by (apply nth_error_Some; congruence).
           replace (sp - pl_size L' + (pl_size L' + foff pr' + Z.of_nat i)) with (sp + foff pr' + Z.of_nat i) by lia.
           rewrite Hm2; [exact Hrd | lia | lia | lia].
+      + (* the names of arrays: an array formal holds the address the caller stored; a global array's word is untouched *)
+        intros a l Hal. cbn [top set_stk stk].
+        destruct (frame_aenv_spec gaddr aaddr pr' fn' ln' _ a l Hs' Hal) as [(i & Hi & Hfa & ->)|(Hn & w & Hw & ->)].
+        * destruct (Hfor i (FArray a) Hfa) as (v & Hv & Hass & _ & Hka). cbn [formal_nm] in Hass.
+          assert (Hil : (i < List.length vs)%nat) by (apply nth_error_Some; congruence).
+          destruct (Hargs i v Hv) as [(z & -> & _)|(g & -> & Hg & Hrd)].
+          -- destruct (Hka eq_refl) as [(g & Hq)|(ws & Hq)]; discriminate Hq.
+          -- exists g. split; [left; cbn [top set_stk stk]; exact Hass|]. split; [exact Hg|]. split; [|intros w Hq; discriminate Hq].
+             cbn [waddr]. replace (sp - pl_size L' + (pl_size L' + foff pr' + Z.of_nat i)) with (sp + foff pr' + Z.of_nat i) by lia.
+             rewrite Hm2; [exact Hrd | lia | lia | lia].
+        * destruct (HAn a (LGlobal w) (array_in_frame gaddr aaddr pr fn ln (pl_size L) a w Hs Hw)) as (g & _ & Hg & Hrd & Hga).
+          specialize (Hga w eq_refl). subst g.
+          destruct (HAc a Hg) as (_ & _ & ar & Har & _).
+          destruct (Harr a w Hw) as (W1 & _ & W3 & W4 & _). cbn [waddr] in *.
+          exists a. split; [|split; [exact Hg|]; split; [|intros; reflexivity]].
+          -- right. cbn [top set_stk stk]. split; [exact (Hoth a Hn)|]. split; [rewrite Hfv; reflexivity|]. split; [|reflexivity].
+             cbn [garrs set_stk set_budget]. rewrite Har. discriminate.
+          -- rewrite Hm2; [exact Hrd | apply in_mem_iff in W1; lia | lia | exact W3].
+      + (* the cells: untouched by the prologue *)
+        intros g Hg. destruct (HAc g Hg) as (C1 & C2 & ar & C3 & C4 & C5). cbn [gvars garrs set_stk set_budget].
+        split; [exact C1|]. split; [exact C2|]. exists ar. split; [exact C3|]. split; [exact C4|].
+        intros i n Hi Hf. destruct (C5 i n Hi Hf) as [G1 G2]. split; [exact G1|].
+        unfold garr_of in Hg. destruct (aaddr g) as [w|] eqn:Hw; [|discriminate].
+        destruct (Harr g w Hw) as (_ & _ & _ & _ & _ & W6). destruct (W6 i ltac:(rewrite <- C4; exact Hi)) as [W7 _].
+        rewrite Hm2; [exact G2 | lia | lia | lia].
     - split; [cbn [set_stk stk]; discriminate|]. intros q qi _. cbn [top set_stk stk]. rewrite Hfv. reflexivity.
     - cbn [top set_stk stk]. rewrite Hfd. unfold Dq_of in *.
       replace (g_maxdepth ge - f_depth (top st))%nat with (S (g_maxdepth ge - S (f_depth (top st)))) in HD by lia.
@@ -624,33 +794,36 @@ Section Prog.
     pose proof (foff_range pr) as Hfr1. pose proof (foff_range pr') as Hfr2.
     assert (Hf2 : is_func pr' = true -> foff pr' = 2) by (intros H; unfold foff; rewrite H; reflexivity).
     destruct Hstack as [Hs1 HsP].
-    destruct HR as (HC & H1 & (HVg & HVf) & Hne & HD).
-    destruct HR' as (HC' & H1' & (HVg' & HVf') & Hne' & HD').
-    destruct Hpost as (P1 & P2 & P3 & P4 & P5 & P6). cbn [out_rev input ncons garrs set_stk set_budget stk tl] in P1, P2, P3, P4, P5.
+    destruct HR as (HC & H1 & ((HVg & HVf) & (HAn & HAc)) & Hne & HD).
+    destruct HR' as (HC' & H1' & ((HVg' & HVf') & (HAn' & HAc')) & Hne' & HD').
+    destruct Hpost as (P1 & P2 & P3 & P5 & P6). cbn [out_rev input ncons garrs set_stk set_budget stk tl] in P1, P2, P3, P5.
     assert (Hstk : stk (pop s2) = stk st) by (rewrite stk_pop; exact P5).
     assert (Htopeq : top (pop s2) = top st) by (unfold top; rewrite Hstk; reflexivity).
     (* what the callee may have changed *)
     assert (Hout : forall a, 0 <= a -> ~ (stack_lo <= a < sp) -> ~ (sp + foff pr' <= a < sp + foff pr' + Z.of_nat (List.length vs)) ->
-                   (forall x, gaddr x <> Some a) -> a <> 1 -> a <> sp -> rd mb a = rd m a).
-    { intros a Ha Hn1 Hn2 Hn3 Hn4 Hn5. rewrite (Hfo a Ha).
+                   (forall x, gaddr x <> Some a) -> a < stack_hi -> a <> 1 -> a <> sp -> rd mb a = rd m a).
+    { intros a Ha Hn1 Hn2 Hn3 Hhi4 Hn4 Hn5. rewrite (Hfo a Ha).
       - rewrite rd_wr_other; [|lia | exact Ha | congruence]. apply rd_wr_other; [lia | exact Ha | congruence].
       - intros Hsc. apply (callee_scratch pr' fn' ln' L' _ a Hfr') in Hsc. lia.
-      - intros Hvw. destruct (callee_var_word pr' fn' ln' L' _ a Hfr' Hvw) as [Hq|[Hq|(x & Hx)]]; [lia | rewrite <- Hlv in Hq; lia | exact (Hn3 x Hx)]. }
+      - intros Hvw. destruct (callee_var_word pr' fn' ln' L' _ a Hfr' Hvw) as [Hq|[Hq|[(x & Hx)|(a' & w & i & Hw & Hi & ->)]]];
+          [lia | rewrite <- Hlv in Hq; lia | exact (Hn3 x Hx)|].
+        destruct (Harr a' w Hw) as (_ & _ & _ & _ & _ & W6). destruct (W6 i Hi) as [W7 _]. lia. }
     split; [|split; [|split]].
     - (* the link word *)
       rewrite (Hfo sp ltac:(lia)).
       + rewrite rd_wr_other; [apply rd_wr_same | lia | lia | lia].
       + intros Hsc. apply (callee_scratch pr' fn' ln' L' _ sp Hfr') in Hsc. lia.
-      + intros Hvw. destruct (callee_var_word pr' fn' ln' L' _ sp Hfr' Hvw) as [Hq|[Hq|(x & Hx)]]; [lia | lia |].
-        destruct (Hgaddr x sp Hx) as (_ & _ & _ & G4 & _). lia.
+      + intros Hvw. destruct (callee_var_word pr' fn' ln' L' _ sp Hfr' Hvw) as [Hq|[Hq|[(x & Hx)|(a' & w & i & Hw & Hi & Heq)]]]; [lia | lia | |].
+        * destruct (Hgaddr x sp Hx) as (_ & _ & _ & G4 & _). lia.
+        * destruct (Harr a' w Hw) as (_ & _ & _ & _ & _ & W6). destruct (W6 i Hi) as [W7 _]. lia.
     - split; [|split; [|split; [|split]]].
       + exact HCf.
       + exact Hf1.
-      + split.
+      + split; [split | split].
         * intros x a Hx. rewrite Htopeq. destruct (HVg x a Hx) as (A1 & A2 & A3 & _).
           split; [exact A1|]. split; [exact A2|]. split; [exact A3|].
           assert (Hga : gaddr x = Some a).
-          { destruct (frame_venv_spec gaddr pr fn ln _ x _ Hs Hx) as [(j & _ & Hq)|[(i & _ & Hq)|(Hn & a0 & Ha0 & Hq)]]; try discriminate Hq.
+          { destruct (frame_venv_spec gaddr aaddr pr fn ln _ x _ Hs Hx) as [(j & _ & Hq)|[(i & _ & _ & Hq)|(Hn & a0 & Ha0 & Hq)]]; try discriminate Hq.
             inversion Hq; subst a0. exact Ha0. }
           destruct (Hgaddr x a Hga) as (G1 & G2 & G3 & G4 & G5).
           destruct (HVg' x a (global_in_frame pr' fn' ln' (pl_size L') x a Hs' Hga)) as (_ & _ & _ & v & Hv & Hval).
@@ -658,22 +831,50 @@ Section Prog.
         * intros x k Hx. rewrite Htopeq. destruct (HVf x k Hx) as (v & Hv & Hval). exists v. split; [exact Hv|].
           destruct (var_addr pr fn ln L sp x (LFrame k) Hfr Hx) as [(j & Hj & Hq & Hjl)|[(i & Hi & Hq & Hil)|(Hn & a & Ha & Hq & _)]];
             try discriminate Hq; cbn [addr_of] in Hq; rewrite Hq in *.
-          -- rewrite Hm'; [|lia | lia | intros Hff; specialize (Hf2 Hff); lia]. rewrite Hout; [exact Hval | lia | lia | lia | | lia | lia].
+          -- rewrite Hm'; [|lia | lia | intros Hff; specialize (Hf2 Hff); lia]. rewrite Hout; [exact Hval | lia | lia | lia | | lia | lia | lia].
              intros y Hy. destruct (Hgaddr y _ Hy) as (_ & _ & _ & G4 & _). lia.
-          -- rewrite Hm'; [|lia | lia | intros Hff; specialize (Hf2 Hff); lia]. rewrite Hout; [exact Hval | lia | lia | lia | | lia | lia].
+          -- rewrite Hm'; [|lia | lia | intros Hff; specialize (Hf2 Hff); lia]. rewrite Hout; [exact Hval | lia | lia | lia | | lia | lia | lia].
              intros y Hy. destruct (Hgaddr y _ Hy) as (_ & _ & _ & G4 & _). lia.
+        * (* the names of arrays: the caller's words are as they were *)
+          intros a l Hal. destruct (HAn a l Hal) as (g & Hres & Hg & Hrd & Hga).
+          destruct (HAc' g Hg) as (_ & _ & ar & Har & _).
+          exists g. split; [|split; [exact Hg|]; split; [|exact Hga]].
+          -- unfold resolves in *. rewrite Htopeq. destruct Hres as [Hl|(R1 & R2 & R3 & ->)]; [left; exact Hl | right].
+             split; [exact R1|]. split; [exact R2|]. split; [|reflexivity]. cbn [pop garrs set_stk]. rewrite Har. discriminate.
+          -- destruct (frame_aenv_spec gaddr aaddr pr fn ln _ a l Hs Hal) as [(i & Hi & Hfa & ->)|(_ & w & Hw & ->)]; cbn [waddr] in *.
+             ++ assert (Hil : (i < List.length fn)%nat) by (apply nth_error_Some; congruence).
+                rewrite Hm'; [|lia | lia | intros Hff; specialize (Hf2 Hff); lia]. rewrite Hout; [exact Hrd | lia | lia | lia | | lia | lia | lia].
+                intros y Hy. destruct (Hgaddr y _ Hy) as (_ & _ & _ & G4 & _). lia.
+             ++ destruct (Harr a w Hw) as (W1 & _ & W3 & W4 & W5 & _). apply in_mem_iff in W1.
+                rewrite Hm'; [|lia | exact W3 | lia]. rewrite Hout; [exact Hrd | lia | lia | lia | | lia | exact W3 | lia].
+                intros y Hy. exact (W5 y w Hy eq_refl).
+        * (* the cells, as the callee left them *)
+          intros g Hg. destruct (HAc' g Hg) as (C1 & C2 & ar & C3 & C4 & C5). cbn [pop gvars garrs set_stk].
+          split; [exact C1|]. split; [exact C2|]. exists ar. split; [exact C3|]. split; [exact C4|].
+          intros i n Hi Hf. destruct (C5 i n Hi Hf) as [G1 G2]. split; [exact G1|].
+          unfold garr_of in Hg. destruct (aaddr g) as [w|] eqn:Hw; [|discriminate].
+          destruct (Harr g w Hw) as (_ & _ & _ & _ & _ & W6). destruct (W6 i ltac:(rewrite <- C4; exact Hi)) as [W7 _].
+          rewrite Hm'; [exact G2 | lia | lia | intros Hff; specialize (Hf2 Hff); lia].
       + unfold novals. rewrite Hstk, Htopeq. exact Hne.
       + rewrite Htopeq. exact HD.
     - unfold post. rewrite Htopeq, Hstk. cbn [pop out_rev input ncons garrs set_stk].
-      split; [exact P1|]. split; [exact P2|]. split; [exact P3|]. split; [exact P4|]. split; reflexivity.
+      split; [exact P1|]. split; [exact P2|]. split; [exact P3|]. split; reflexivity.
     - intros a Ha Hns0 Hnv. destruct (Z.eq_dec a 1) as [->|Hne1]; [rewrite Hf1; symmetry; exact H1|].
       rewrite Hm'; [|exact Ha | exact Hne1|].
       2:{ intros Hff Heq. specialize (Hf2 Hff). apply Hns0. right. left. unfold O. lia. }
-      apply Hout; try assumption.
-      + intros Hq. apply Hns0. right. right. exact Hq.
-      + intros Hq. apply Hns0. right. left. unfold O. lia.
-      + intros x Hx. apply Hnv. exists x, (LGlobal a). split; [exact (global_in_frame pr fn ln (pl_size L) x a Hs Hx) | reflexivity].
-      + intros ->. apply Hns0. right. left. unfold O. lia.
+      destruct (Z_lt_dec a stack_hi) as [Hlt|Hge].
+      * apply Hout; try assumption.
+        -- intros Hq. apply Hns0. right. right. exact Hq.
+        -- intros Hq. apply Hns0. right. left. unfold O. lia.
+        -- intros x Hx. apply Hnv. left. exists x, (LGlobal a). split; [exact (global_in_frame pr fn ln (pl_size L) x a Hs Hx) | reflexivity].
+        -- intros ->. apply Hns0. right. left. unfold O. lia.
+      * (* above the stack: only cells of arrays can have changed, and those are variable words of the caller too *)
+        rewrite (Hfo a Ha).
+        -- rewrite rd_wr_other; [|lia | exact Ha | congruence]. apply rd_wr_other; [lia | exact Ha | lia].
+        -- intros Hsc. apply (callee_scratch pr' fn' ln' L' _ a Hfr') in Hsc. lia.
+        -- intros Hvw. destruct (callee_var_word pr' fn' ln' L' _ a Hfr' Hvw) as [Hq|[Hq|[(x & Hx)|(a' & w & i & Hw & Hi & Heq)]]];
+             [lia | rewrite <- Hlv in Hq; lia | destruct (Hgaddr x a Hx) as (_ & _ & _ & G4 & _); lia|].
+           apply Hnv. right. exists a', i. split; [unfold garr_of; rewrite Hw; reflexivity|]. split; [exact Hi | exact Heq].
   Qed.
 
   (* ---- a procedure of the table, run from its entry label, meets the call specification of any caller frame *)
@@ -693,7 +894,7 @@ Section Prog.
     destruct (enter ge pr' vs st) as [u|fr] eqn:Hent; [exact I|].
     unfold tick. destruct (budget st <=? 0); [exact I|]. cbn [stk set_budget].
     destruct (callee_frame pr fn ln L sp pr' fn' ln' L' st m vs fr link _ (fun x _ => eq_refl) Hfr Hs' Hnum' HR Hargs Hlen Hent) as [Hfr' _].
-    destruct (enter_frame ge gaddr pr' fn' ln' vs st fr Hs' Hent) as (_ & _ & _ & Hlv & _).
+    destruct (enter_frame ge gaddr aaddr pr' fn' ln' vs st fr Hs' Hent) as (_ & _ & _ & Hlv & _).
     pose proof Hfr as (Hs & (Hsz & Hft & Hog & Hns) & Hlo & Htop & Htop2).
     pose proof Hfr' as (_ & (Hsz' & Hft1 & Hog' & Hns') & Hlo' & Htop' & Htop2').
     pose proof (foff_range pr) as Hfo1. pose proof (foff_range pr') as Hfo2.
@@ -732,8 +933,8 @@ Section Prog.
         exists outs, a2, b2, mf. split; [|split; [exact HRc|split; [exact Pc|split; [exact Fc|]]]].
         * eapply taus_runs; [exact Tpro|]. eapply runs_taus; [exact Rb | exact Tepi].
         * intros _. exists z. split; [reflexivity|]. split; [exact Hz | exact Hfr1].
-      + destruct Hres as (outs & Ex & (Q1 & Q2 & Q3 & Q4)). exists outs. split; [eapply taus_exits; [exact Tpro | exact Ex]|].
-        exact (conj Q1 (conj Q2 (conj Q3 Q4))).
+      + destruct Hres as (outs & Ex & (Q1 & Q2 & Q3)). exists outs. split; [eapply taus_exits; [exact Tpro | exact Ex]|].
+        exact (conj Q1 (conj Q2 Q3)).
     - (* a procedure *)
       assert (Hback : forall outs s2 mb a1 b1, runs inp (mk p1 ap bp 0 m2) (map wr_ev outs) inp (mk p2 a1 b1 0 mb) ->
                 RelF pr' L' sp' s2 mb -> post st1 s2 outs -> frame_onlyF pr' L' sp' m2 mb ->
@@ -754,8 +955,8 @@ Section Prog.
       + destruct Hres as (outs & a1 & b1 & mb & Rb & HRb & Pb & Fb). exact (Hback outs s2 mb a1 b1 Rb HRb Pb Fb).
       + destruct Hres as (outs & z & b1 & mb & _ & _ & Rb & HRb & Pb & Fb). rewrite Hlab in Rb.
         exact (Hback outs s2 mb (z mod W) b1 Rb HRb Pb Fb).
-      + destruct Hres as (outs & Ex & (Q1 & Q2 & Q3 & Q4)). exists outs. split; [eapply taus_exits; [exact Tpro | exact Ex]|].
-        exact (conj Q1 (conj Q2 (conj Q3 Q4))).
+      + destruct Hres as (outs & Ex & (Q1 & Q2 & Q3)). exists outs. split; [eapply taus_exits; [exact Tpro | exact Ex]|].
+        exact (conj Q1 (conj Q2 Q3)).
   Qed.
 
   Theorem call_ok : forall f, Call_ok f.
@@ -773,7 +974,7 @@ Section Prog.
      frame, or the word of a variable in scope *)
   Corollary call_discipline : forall f pr fn ln L sp, frame_ok pr fn ln L sp ->
     forall p pi vs st v st' m link b inp, pinfo p = Some pi ->
-      RelF pr L sp st m -> args_stored sp vs (koff pi) m -> Z.of_nat (List.length vs) + koff pi <= pl_og L -> 0 <= link < W ->
+      RelF pr L sp st m -> args_stored garr_of abase sp vs (koff pi) m -> Z.of_nat (List.length vs) + koff pi <= pl_og L -> 0 <= link < W ->
       invoke (exec f ge) ge (pf_isfunc pi) p vs st = Ret v st' ->
       exists evs a' b' m', runs inp (mk (lab (pf_entry pi)) link b 0 m) evs inp (mk link a' b' 0 m') /\
         rd m' 1 = rd m 1 /\ (forall x, 0 <= x -> P x -> rd m' x = rd m x) /\
@@ -792,25 +993,25 @@ End Prog.
 
 (* the code of the hypothesis Hprocs is the lowered procedure of the model cproc_lowered (which tools/c01.py, after
    the executable peephole pass, compares with xcmp -S): exit label 0, body labels from 1, nslots = size *)
-Lemma cproc_lowered_simple pinfo gaddr pool p size og code :
-  cproc_lowered pinfo gaddr pool p size og = Some code ->
-  exists bc n', cs pinfo (frame_venv gaddr p size) pool size size (first_temp p) og 0 (body p) 1 = Some (bc, n') /\
+Lemma cproc_lowered_simple pinfo gaddr aaddr pool p size og code :
+  cproc_lowered pinfo gaddr aaddr pool p size og = Some code ->
+  exists bc n', cs pinfo (frame_venv gaddr p size) pool size size (frame_aenv aaddr p size) (first_temp p) og 0 (body p) 1 = Some (bc, n') /\
                 code = pro size ++ bc ++ epi_of (is_func p) 0 size.
 Proof.
   intros H. unfold cproc_lowered in H.
-  destruct (cs pinfo (frame_venv gaddr p size) pool size size (first_temp p) og 0 (body p) 1) as [[bc n']|]; [|discriminate].
+  destruct (cs pinfo (frame_venv gaddr p size) pool size size (frame_aenv aaddr p size) (first_temp p) og 0 (body p) 1) as [[bc n']|]; [|discriminate].
   cbn [obind] in H. inversion H; subst code. exists bc, n'. split; [reflexivity|].
   unfold prologue, epilogue, pro, pro5, epi_of, epi, epif, epi7, epif8. destruct (0 <? size); destruct (is_func p); reflexivity.
 Qed.
 
 (* the hypotheses of Section Prog, as one proposition *)
-Definition prog_hyps (ge : genv) (gaddr : string -> option Z) (pool : Z -> option Z) (P : Z -> Prop) (m0 : WMap.t)
-    (lab : label -> Z) (pinfo : string -> option pframe) (stack_lo maxframe : Z) : Prop :=
+Definition prog_hyps (ge : genv) (gaddr aaddr : string -> option Z) (abase alen_of : string -> Z) (pool : Z -> option Z)
+    (P : Z -> Prop) (m0 : WMap.t) (lab : label -> Z) (pinfo : string -> option pframe) (stack_lo stack_hi maxframe : Z) : Prop :=
   (forall p pi, pinfo p = Some pi ->
      0 <= lab (pf_entry pi) /\
      exists pr fn ln L bc n' endp,
-       find_proc p (g_procs ge) = Some pr /\ pf_isfunc pi = is_func pr /\ simple_proc gaddr pr fn ln /\ numbers_ok maxframe pr L /\
-       cs pinfo (frame_venv gaddr pr (pl_size L)) pool (pl_size L) (pl_nslots L) (first_temp pr) (pl_og L) (pl_exit L)
+       find_proc p (g_procs ge) = Some pr /\ pf_isfunc pi = is_func pr /\ simple_proc gaddr aaddr pr fn ln /\ numbers_ok maxframe pr L /\
+       cs pinfo (frame_venv gaddr pr (pl_size L)) pool (pl_size L) (pl_nslots L) (frame_aenv aaddr pr (pl_size L)) (first_temp pr) (pl_og L) (pl_exit L)
           (body pr) (pl_n0 L) = Some (bc, n') /\
        code_at (C P m0) lab (lab (pf_entry pi)) (pro (pl_size L) ++ bc ++ epi_of (is_func pr) (pl_exit L) (pl_size L)) endp /\ endp < W) /\
   (forall x a, gaddr x = Some a -> in_mem a = true /\ ~ P a /\ a <> 1 /\ a < stack_lo /\ assoc x (g_vals ge) = None) /\
@@ -819,9 +1020,18 @@ Definition prog_hyps (ge : genv) (gaddr : string -> option Z) (pool : Z -> optio
   ~ P 1 /\
   (forall v a, pool v = Some a -> P a /\ in_mem a = true /\ rd m0 a = v mod W) /\
   (forall p pi, pinfo p = Some pi -> assoc p (g_vals ge) = None) /\
-  0 <= maxframe.
+  0 <= maxframe /\
+  stack_hi <= MEMW /\
+  (forall a w, aaddr a = Some w ->
+     in_mem w = true /\ ~ P w /\ w <> 1 /\ w < stack_lo /\ (forall x g, gaddr x = Some g -> g <> w) /\
+     forall i, 0 <= i < alen_of a -> stack_hi <= abase a + i < MEMW /\ ~ P (abase a + i)) /\
+  (forall a w a' w' i i', aaddr a = Some w -> aaddr a' = Some w' -> 0 <= i < alen_of a -> 0 <= i' < alen_of a' ->
+     abase a + i = abase a' + i' -> a = a' /\ i = i').
 
-Lemma stmt_calls_of_hyps ge gaddr pool P m0 lab pinfo stack_lo maxframe :
-  prog_hyps ge gaddr pool P m0 lab pinfo stack_lo maxframe ->
-  forall f, Stmt_ok ge gaddr pool P m0 lab pinfo stack_lo maxframe f.
-Proof. intros (H1 & H2 & H3 & H4 & H5 & H6 & H7 & H8). exact (stmt_calls_closed ge gaddr pool P m0 lab pinfo stack_lo maxframe H1 H2 H3 H4 H5 H6 H7 H8). Qed.
+Lemma stmt_calls_of_hyps ge gaddr aaddr abase alen_of pool P m0 lab pinfo stack_lo stack_hi maxframe :
+  prog_hyps ge gaddr aaddr abase alen_of pool P m0 lab pinfo stack_lo stack_hi maxframe ->
+  forall f, Stmt_ok ge gaddr aaddr abase alen_of pool P m0 lab pinfo stack_lo stack_hi maxframe f.
+Proof.
+  intros (H1 & H2 & H3 & H4 & H5 & H6 & H7 & H8 & H9 & H10 & H11).
+  exact (stmt_calls_closed ge gaddr aaddr abase alen_of pool P m0 lab pinfo stack_lo stack_hi maxframe H1 H2 H3 H4 H5 H6 H7 H8 H9 H10 H11).
+Qed.
